@@ -235,7 +235,14 @@ def run(ctx, idx):
             ctx.violate("C10.d", con, rel, f.lineno, "action never assigns p[0]")
             continue
         flow = p_flow(f)
-        direct = [i for i, n in p_indices(f) if any(n is x for x in ast.walk(v))]
+        # uses that only ask a question about the value (`2 if any(c.x is None for c in p[1]) else 3`, len(p[1])) do not place it
+        asking = set()
+        for x in ast.walk(v):
+            if isinstance(x, ast.IfExp):
+                asking |= {id(y) for y in ast.walk(x.test)}
+            if isinstance(x, ast.Call) and isinstance(x.func, ast.Name) and x.func.id in ("any", "all", "len", "isinstance", "bool"):
+                asking |= {id(y) for y in ast.walk(x)}
+        direct = [i for i, n in p_indices(f) if any(n is x for x in ast.walk(v)) and id(n) not in asking]
         via_temps = bool(flow - set(direct))
         probs = []
         for p in prods:
@@ -424,6 +431,13 @@ def number_action_converts(idx, L, tok, conv):
                 body_calls = {c.func.id for c in calls if any(c is x for b in iff.body for x in ast.walk(b))}
                 if body_calls == {conv}:
                     return True, "converted with %s() in %s under a test of the token type" % (conv, f.name)
+            elif ".type" in ts and isinstance(iff.test, ast.Compare) and isinstance(iff.test.ops[0], ast.Eq) and iff.orelse:
+                # `if type == "<the other number token>": ... else: <this one>`
+                others = {"INT", "FLOAT"} - {tok}
+                if any(("'%s'" % o in ts or '"%s"' % o in ts) for o in others) and set(prods[0].rhs) | {r_ for p_ in prods for r_ in p_.rhs} <= {"INT", "FLOAT"} | {tok}:
+                    else_calls = {c.func.id for c in calls if any(c is x for b in iff.orelse for x in ast.walk(b))}
+                    if else_calls == {conv}:
+                        return True, "converted with %s() in the else branch of %s's token-type test" % (conv, f.name)
         return None, "the action %s applies %s to the text of %s in a form the analyser cannot decide" % (f.name, "/".join(sorted(kinds)), tok)
     return False, "the action %s converts the text of %s with %s(), not %s()" % (f.name, tok, "/".join(sorted(kinds)), conv)
 
@@ -449,10 +463,53 @@ def actions_keep_values(ctx, idx, L, rule):
                     if any(isinstance(x, ast.Subscript) and isinstance(x.value, ast.Name) and x.value.id == parg for x in ast.walk(n.value)) or (K.names_in(n.value) & derived):
                         derived.add(n.targets[0].id)
                         changed = True
+        # terminals each nonterminal can derive (to know which symbols can carry a quoted string)
+        derives = {}
+        changed2 = True
+        nts = {p_.lhs for p_ in L.productions}
+        while changed2:
+            changed2 = False
+            for p_ in L.productions:
+                cur = derives.setdefault(p_.lhs, set())
+                for sym in p_.rhs:
+                    add = derives.get(sym, set()) if sym in nts else {sym}
+                    if not add <= cur:
+                        cur |= add
+                        changed2 = True
+
+        def only_unquoted(call):
+            """the rewrite trims blanks and sits under `if p.slice[i].type == NT` with NT unable to derive a STRING token"""
+            if call.func.attr not in ("strip", "lstrip", "rstrip"):
+                return False
+            if call.args:
+                try:
+                    chars = idx.const(L.mod, call.args[0])
+                except Exception:
+                    chars = None
+                    if isinstance(call.args[0], ast.Attribute) and call.args[0].attr == "t_ignore":
+                        chars = L.t_ignore
+                if not isinstance(chars, str) or set(chars) - {" ", "\t"}:
+                    return False
+            for iff in ast.walk(f):
+                if isinstance(iff, ast.If) and any(call is x for b_ in iff.body for x in ast.walk(b_)):
+                    t_ = iff.test
+                    if isinstance(t_, ast.Compare) and len(t_.ops) == 1 and isinstance(t_.ops[0], (ast.Eq, ast.In)) and K.src(t_.left).replace(" ", "").startswith("%s.slice[" % parg) and K.src(t_.left).endswith(".type"):
+                        try:
+                            names_ = idx.const(L.mod, t_.comparators[0])
+                        except Exception:
+                            return False
+                        names_ = [names_] if isinstance(names_, str) else list(names_)
+                        if names_ and all(isinstance(nm_, str) and "STRING" not in (derives.get(nm_, {nm_}) if nm_ in nts else {nm_}) for nm_ in names_):
+                            return True
+            return False
+
         for n in ast.walk(f):
             if isinstance(n, ast.Call) and isinstance(n.func, ast.Attribute) and n.func.attr in TRANSFORMS:
                 recv = n.func.value
                 from_p = any(isinstance(x, ast.Subscript) and isinstance(x.value, ast.Name) and x.value.id == parg for x in ast.walk(recv)) or bool(K.names_in(recv) & derived)
+                if from_p and only_unquoted(n):
+                    ctx.hold(rule, "%s::Parser.%s::value-rewritten" % (rel, f.name), rel, n.lineno, "blanks are trimmed only from values of a symbol that cannot be a quoted string")
+                    continue
                 if from_p:
                     ctx.violate(rule, "%s::Parser.%s::value-rewritten" % (rel, f.name), rel, n.lineno,
                                 "the action rewrites a token value (`%s`): a quoted string loses characters that were inside its quotes, so the quoted and the unquoted spelling of a value no longer differ only in what needs quoting, and a serialised string does not read back" % K.src(n)[:60])
